@@ -484,6 +484,7 @@ func genProgram(r *corr.Rand, tier string) Job {
 	}
 	files := []string{"/a", "/d/f", "/b"}
 	dirs := []string{"/d", "/e", "/e/s"}
+	dirRenamed := false
 	for t := 0; t < nt; t++ {
 		var ops []string
 		no := 1 + r.Intn(2)
@@ -511,7 +512,14 @@ func genProgram(r *corr.Rand, tier string) Job {
 			case q < 76:
 				ops = append(ops, "rename "+h(f)+" "+h(corr.Pick(r, files)))
 			case q < 80:
-				ops = append(ops, "rename "+h("/e")+" "+h("/g"))
+				// a directory is renamed onto an otherwise unused name: at most once per program (a second
+				// Rename(/e, /g) would target a name that is in use by then — outside the property's programs)
+				if dirRenamed {
+					ops = append(ops, "stat "+h("/g"))
+				} else {
+					dirRenamed = true
+					ops = append(ops, "rename "+h("/e")+" "+h("/g"))
+				}
 			case q < 88:
 				ops = append(ops, "stat "+h(corr.Pick(r, append(files, dirs...))))
 			case q < 92:
